@@ -108,7 +108,7 @@ def gen_case(rng: random.Random, i: int) -> dict:
     case = gen_case0(rng, i)
     if i % 4 == 2 and not case.get("freetime"):
         case["userevents"] = True       # every third event is a user-defined SimEventInterface object
-    return case
+    return S.maybe_fail_construct(case, rng, i)
 
 
 def gen_case0(rng: random.Random, i: int) -> dict:
@@ -192,8 +192,8 @@ def oracle(case: dict, obs: dict):
     plus a dict of non-triviality facts."""
     facts = {"ties": False, "cancel_pending": False, "illegal": False, "zero_delay": False,
              "nonzero_start_construct_sched": False, "second_replication": False, "abs_from_nondyadic_clock": False,
-             "executed": 0}
-    why = S.representable(obs)
+             "aborted_initialize": False, "executed": 0}
+    why = S.representable(obs, case)
     if why is not None and "error" in obs:
         return ("driver-error", why), facts
     free = bool(case.get("freetime"))
@@ -212,8 +212,8 @@ def oracle(case: dict, obs: dict):
     block_at, prev = {}, -1
     for i, e in enumerate(log):
         if e[0] == "cmd":
-            if e[1][0] == "init" and e[2] == "ok":
-                block_at[prev + 1] = e[1]
+            if e[1][0] == "init" and (e[2] == "ok" or (e[2].startswith("exc:") and S.construct_fails(case))):
+                block_at[prev + 1] = e[1]         # also an initialize aborted by a raising construct_model opens a block
             prev = i
     pending = {}          # k -> (time, -prio, k)
     executed = []
@@ -222,6 +222,7 @@ def oracle(case: dict, obs: dict):
     pending_ever = []
     start = None
     in_construct = False
+    aborted = False
     last_cmd = None
     n_blocks = 0
 
@@ -248,6 +249,7 @@ def oracle(case: dict, obs: dict):
             pending, executed, cancelled, pending_ever = {}, [], set(), []
             last_clock = start          # initialize puts the clock at the replication start, before construct_model
             in_construct = True
+            aborted = False
             n_blocks += 1
             if n_blocks > 1:
                 facts["second_replication"] = True
@@ -255,6 +257,18 @@ def oracle(case: dict, obs: dict):
             last_cmd = ent
             if ent[1][0] == "init" and ent[2] == "ok":
                 in_construct = False
+                aborted = False
+            elif ent[1][0] == "init" and ent[2].startswith("exc:") and in_construct:
+                # construct_model raised: initialize is aborted, the simulator must be left not initialised
+                in_construct = False
+                aborted = True
+                facts["aborted_initialize"] = True
+                if (ent[3], ent[4]) != ("NOT_INITIALIZED", "NOT_INITIALIZED"):
+                    return ("aborted-initialize-leaves-wrong-state", f"{ent[1]} raised {ent[2]}, state afterwards {ent[3]}/{ent[4]}"), facts
+            elif aborted and ent[1][0] in ("start", "step", "runupto", "runuptoincl", "stop", "endrepl") and ent[2] != "refused":
+                return ("command-accepted-after-aborted-initialize", f"{ent[1]} -> {ent[2]} on a simulator whose initialize was aborted"), facts
+        if aborted and ent[0] in ("exec", "ntf"):
+            return ("activity-after-aborted-initialize", f"{ent[:3]} although initialize was aborted by construct_model"), facts
         if ent[0] == "sched" and in_construct and isinstance(ent[2], num):
             if ent[2] != start:
                 return ("clock-during-construct-model-is-not-the-replication-start",
